@@ -99,7 +99,15 @@ def handle : List String → String
     match readTree (tree.length + 1) tree, unhexStr goHex with
     | some (v, []), some go =>
       let m := enc v
-      if m == go then "ok" else s!"diff encoder: model {hexOfStr m} implementation {goHex}"
+      if m == go then "ok" else
+      -- the bytes differ from the model encoder's: does the (proved) parser read the object back out of them?
+      (match decodeFrame false go, decodeFrame false m with
+       | .deliver a, .deliver b =>
+         if canon true a == canon true b then s!"diff encoder: model {hexOfStr m} implementation {goHex}"
+         else s!"specviol round trip fails: the encoder's output {goHex} decodes to a different object than the one written"
+       | _, .deliver _ => s!"specviol round trip fails: the encoder's output {goHex} is not a frame holding one JSON object"
+       | _, _ => s!"diff encoder: model {hexOfStr m} implementation {goHex}")
+    | some (_, []), none => s!"specviol round trip fails: the encoder's output {goHex} is not valid UTF-8"
     | _, _ => "bad-op"
   | "dec" :: pinnedFlag :: useNum :: frameHex :: result =>
     let un := useNum == "1"
